@@ -14,17 +14,11 @@ theorem not_safe_private {s : St} (hi : Inv s) {t : Tid} {a m d : Nat} (hr : rea
   simp only [bview_log] at hpo
   intro h
   rcases h with g | ⟨u, g⟩ | ⟨z, g1, g2, g3⟩
-  · have := hi.d.zdel m d
-    simp only [dview_rled, dview_zn, dview_lst] at this
-    exact (this hc hz).2.2 g
+  · have hne : ∀ c z, DView (s.pc t) ≠ .eMark c none z := by
+      intro c z hd
+      cases hp' : s.pc t <;> simp [hp', BView, reaper] at hr <;> simp [hp', DView] at hd
+    exact (zdel_priv hi hp hne hc hz).2.2 g
   · simp only [eview_vpc] at g
-    have hheld := hi.d.held u
-    simp only [dview_vpc] at hheld
-    have norec : NoRec s.dview d → False := by
-      intro hn
-      have := hn m
-      simp only [dview_rled, dview_zn] at this
-      exact this hc hz
     have viaZ : ∀ z, privRec (BView (s.pc u)) = some z → privLed (BView (s.pc u)) = .cons → (s.recs z).znode = some d →
         EView (s.pc u) ≠ .idle → False := by
       intro z h1 h2 h3 h4
@@ -37,15 +31,9 @@ theorem not_safe_private {s : St} (hi : Inv s) {t : Tid} {a m d : Nat} (hr : rea
       subst this
       cases hp' : s.pc u <;> simp [hp', BView, reaper] at hr <;> simp [hp', EView] at h4
     cases hp' : s.pc u with
-    | eFix c o p y =>
-      rw [hp'] at g hheld; simp only [EView, pendNode, DView, HeldP] at g hheld
-      injection g with g; subst g; exact norec hheld.1
-    | eAlloc c o =>
-      rw [hp'] at g hheld; simp only [EView, pendNode, DView, HeldP] at g hheld
-      injection g with g; subst g; exact norec hheld.1
-    | eCons c o z =>
-      rw [hp'] at g hheld; simp only [EView, pendNode, DView, HeldP] at g hheld
-      injection g with g; subst g; exact norec hheld.1
+    | eFix c o p y z =>
+      rw [hp'] at g; simp only [EView, pendNode, eview_zn] at g
+      exact viaZ z (by simp [hp', BView, privRec]) (by simp [hp', BView, privLed]) g (by simp [hp', EView])
     | eZh o z =>
       rw [hp'] at g; simp only [EView, pendNode, eview_zn] at g
       exact viaZ z (by simp [hp', BView, privRec]) (by simp [hp', BView, privLed]) g (by simp [hp', EView])
@@ -108,19 +96,19 @@ theorem touch_safe {s s' : St} {t : Tid} {e : Ev} {d : Nat} (hx : InvX s) (hS : 
   case eDelFresh c orig hpc hv =>
     obtain ⟨r0, hr0⟩ := wreg (by simp [hpc, holdsW])
     exact .inr ⟨true, r0, hr0, hx.e.org t true r0 _ hr0 (by simp [hpc, EView, origOf])⟩
-  case eMark c orig hpc =>
+  case eMark c orig z hpc =>
     rw [hpc] at wr; simp only [CView, WriterP, cview_lst] at wr
     exact .inr (linked (by simp [hpc, holdsW]) wr.1)
-  case eBack c orig o hpc ho =>
+  case eBack c orig z o hpc ho =>
     rw [hpc] at wr; simp only [CView, WriterP, cview_lst] at wr
     exact .inr (linked (by simp [hpc, holdsW]) wr.1)
-  case eNext c orig p o hpc ho =>
+  case eNext c orig p z o hpc ho =>
     rw [hpc] at wr; simp only [CView, WriterP, cview_lst] at wr
     exact .inr (linked (by simp [hpc, holdsW]) wr.1)
-  case eUnlPrev c orig pp y o hpc ho =>
+  case eUnlPrev c orig pp y z o hpc ho =>
     rw [hpc] at wr; simp only [CView, WriterP, NextIs, cview_lst] at wr
     exact .inr (linked (by simp [hpc, holdsW]) wr.2.2.2.1.1)
-  case eFixNext c orig p xx o hpc ho =>
+  case eFixNext c orig p xx z o hpc ho =>
     rw [hpc] at wr; simp only [CView, WriterP, NextIs, cview_lst] at wr
     have hxl : xx ∈ s.lst := by
       have := wr.2.2.2.2.1
